@@ -465,6 +465,11 @@ def state_checks(st, meta, table):
                                                                                  "EDL_sigma": e["sigma"]}))
         elif model == "cd_music":
             checks += cd_checks(st, meta, sf, e, mine, species, masters)
+        if model.startswith("dl_donnan"):
+            gc = gouy(st["eps"], tk, st["mu"], e["psi"])
+            checks.append(("charge-law-donnan", "check_ddl_loose %s %s %s %s %s %s %s" % (Qpairs(zl), Q(A), Q(g), Q(e["psi"]), Q(st["mu"]), Q(st["eps"]), Q(tk)),
+                           abs(sig - gc) <= 1e-6 * abs(gc), {"surface": nm, "sigma_species": sig, "gouy_chapman": gc, "psi": e["psi"],
+                                                             "tolerance": 1e-6, "mu": st["mu"], "eps_r": st["eps"], "tk": tk}))
         if dl:
             dls = []
             for n_, m_ in e["dl"]:
@@ -505,6 +510,8 @@ def state_checks(st, meta, table):
                     if meta.get("oci") and (z > 0) == (sgn > 0):
                         continue          # -only_counter_ions: co-ions are excluded from the layer
                     pred = float(ref[2]) ** (float(z) / float(ref[1]))
+                    if float(E) < 1e-4 or float(ref[2]) < 1e-4:
+                        continue          # g is stored as (E - 1) * W_DL / W: a strongly depleted species loses its digits to cancellation
                     checks.append(("donnan-boltzmann", "check_donnan_ratio %s %s %s %s" % (Q(E), Q(ref[2]), Q(z), Q(ref[1])),
                                    abs(float(E) - pred) <= TOL * pred, {"species": n_, "enrichment": float(E), "reference": ref[0],
                                                                           "reference_enrichment": float(ref[2]), "predicted": pred, "surface": nm}))
@@ -712,7 +719,7 @@ def evaluate(ctx, cases, results):
             nfail += 1
             stats[model][kind][1] += 1
             key = "C20/%s/%s" % (kind, model)
-            if c["meta"].get("erm_ddl") and kind in ("dl-balance", "donnan-boltzmann"):
+            if c["meta"].get("erm_ddl") and kind in ("dl-balance", "donnan-boltzmann", "donnan-counter-enriched"):
                 # EDL_SPECIES (Phreeqc::get_edl_species) ignores the species' -erm_ddl enrichment factor that the charge balance,
                 # sum_diffuse_layer and EDL("element") apply: its composition does not balance the surface charge
                 key = "C20/edl_species-ignores-erm_ddl"
